@@ -1761,7 +1761,7 @@ fn gen_md(rng: &mut Rng, spec: &str, pol: usize, strat: &str) -> Option<(String,
         acts.push(a);
         r
     };
-    if strat == "whole" {
+    if strat == "whole" || strat == "afterfin" {
         go(&mut run, Act::Push(vec![0..flen]));
     }
     if strat == "tail" {
@@ -1808,7 +1808,12 @@ fn gen_md(rng: &mut Rng, spec: &str, pol: usize, strat: &str) -> Option<(String,
             go(&mut run, Act::Push(vec![random_range(rng, flen)]));
         }
     }
-    if run.done && rng.chance(1, 8) {
+    if run.done && strat == "afterfin" {
+        // regression witness (fixed in ecea04a): call, push, call, call after the first `Finished`
+        go(&mut run, Act::Push(vec![flen / 2..flen / 2 + 28]));
+        go(&mut run, Act::Poll);
+        go(&mut run, Act::Poll);
+    } else if run.done && rng.chance(1, 8) {
         // calls after the first `Finished` (tagged kf:md-after-finished by run_md)
         for _ in 0..1 + rng.usize(3) {
             if rng.bool() { go(&mut run, Act::Poll); } else { go(&mut run, Act::Push(vec![random_range(rng, flen)])); }
@@ -1905,9 +1910,9 @@ fn dense_block(rng: &mut Rng, thorough: bool) -> Vec<(String, String)> {
         let page: usize = spec.split('.').nth(3).unwrap().parse().unwrap();
         // metadata decoder: every policy x every strategy
         for pol in 0..5 {
-            for strat in ["exact", "whole", "tail", "widen", "split", "repoll", "clear", "dup", "mixed"] {
+            for strat in ["exact", "whole", "tail", "widen", "split", "repoll", "clear", "dup", "mixed", "afterfin"] {
                 if let Some((l, t)) = gen_md(rng, spec, pol, strat) {
-                    out.push((l, format!("{} dense", t)));
+                    out.push((l, format!("{} dense{}", t, if strat == "afterfin" { " regress:md-after-finished" } else { "" })));
                 }
             }
         }
